@@ -148,7 +148,7 @@ func checkC16(c *checkCtx) {
 					if n.Exceeded && !n.Aborted {
 						wantEx = 1
 					}
-					if nEx != wantEx && !(n.Exceeded && n.Aborted) {
+					if nEx != wantEx {
 						fail(v, "retry", "exceeded", fmt.Sprintf("retry at position %d: exceeded=%v aborted=%v but OnRetriesExceeded fired %d times", n.Pos, n.Exceeded, n.Aborted, nEx))
 					}
 				}
